@@ -2,6 +2,7 @@ package store
 
 import (
 	"context"
+	"errors"
 
 	"github.com/ipld/go-storethehash/internal/vrt"
 	mhprimary "github.com/ipld/go-storethehash/store/primary/multihash"
@@ -10,11 +11,15 @@ import (
 // expCtx is a context whose deadline expires after a chosen number of Err() checks.
 type expCtx struct {
 	context.Context
-	left int
+	left     int
+	canceled bool
 }
 
 func (c *expCtx) Err() error {
 	if c.left == 0 {
+		if c.canceled {
+			return context.Canceled
+		}
 		return context.DeadlineExceeded
 	}
 	c.left--
@@ -32,7 +37,7 @@ func gcCtx() context.Context {
 	if n == max {
 		return context.Background()
 	}
-	return &expCtx{Context: context.Background(), left: n}
+	return &expCtx{Context: context.Background(), left: n, canceled: vrt.Choose("ctx-canceled", 2) == 1}
 }
 
 const (
@@ -46,7 +51,7 @@ func gcStep(s *Store, op int, where string) {
 	case opIndexGC:
 		scanFree := vrt.Choose("scanfree", 2) == 1
 		_, _, err := s.index.VerifGC(gcCtx(), scanFree)
-		vrt.Assert(err == nil || err == context.DeadlineExceeded, "index-gc-no-error", "where", where)
+		vrt.Assert(err == nil || err == context.DeadlineExceeded || err == context.Canceled, "index-gc-no-error", "where", where)
 	case opPrimaryGC:
 		mp, ok := s.index.Primary.(*mhprimary.MultihashPrimary)
 		if !ok {
@@ -54,7 +59,7 @@ func gcStep(s *Store, op int, where string) {
 		}
 		lowUse := int64(vrt.Int("lowuse", 0, 100))
 		_, err := mp.GC(gcCtx(), lowUse)
-		vrt.Assert(err == nil || err == context.DeadlineExceeded, "primary-gc-no-error", "where", where)
+		vrt.Assert(err == nil || errors.Is(err, context.DeadlineExceeded) || errors.Is(err, context.Canceled), "primary-gc-no-error", "where", where)
 	}
 }
 
@@ -70,15 +75,13 @@ func scriptedPrefix(s *Store, c vcfg, keys [][]byte, m *model, which int) {
 			return
 		}
 		vrt.Assert(err == nil, "put-no-error", "where", "prefix")
-		m.present[i] = true
-		m.val[i] = v
+		m.set(i, true, v)
 	}
 	remove := func(i int) {
 		ok, err := s.Remove(keys[i])
 		vrt.Assert(err == nil, "remove-no-error", "where", "prefix")
 		vrt.Assert(ok == m.present[i], "remove-reports-presence", "where", "prefix", "want", m.present[i])
-		m.present[i] = false
-		m.val[i] = nil
+		m.set(i, false, nil)
 	}
 	flush := func() { vrt.Assert(s.Flush() == nil, "flush-no-error", "where", "prefix") }
 	last := len(keys) - 1
